@@ -377,6 +377,28 @@ const char* const XSL_HTML =
     "<xsl:comment>c</xsl:comment><xsl:text disable-output-escaping=\"yes\">&lt;raw&gt;</xsl:text></body></html></xsl:template>"
     "</xsl:stylesheet>";
 
+// no xsl:output: the processor starts with the xml serializer and switches to the html one when it sees <html> (the
+// output encoding of the stream is set a second time)
+const char* const XSL_HTML_DEFAULT =
+    XSL_HEAD ">"
+    "<xsl:template match=\"/\"><html><body><xsl:for-each select=\"//item\"><p><xsl:value-of select=\".\"/></p></xsl:for-each></body></html></xsl:template>"
+    "</xsl:stylesheet>";
+
+const char* const XSL_TEXT_LATIN1 =
+    XSL_HEAD ">" "<xsl:output method=\"text\" encoding=\"ISO-8859-1\"/>"
+    "<xsl:template match=\"/\"><xsl:for-each select=\"//item\"><xsl:value-of select=\"@id\"/>=<xsl:value-of select=\".\"/>;</xsl:for-each>&#233;</xsl:template>"
+    "</xsl:stylesheet>";
+
+const char* const XSL_XML_UTF16 =
+    XSL_HEAD ">" "<xsl:output method=\"xml\" encoding=\"UTF-16\" indent=\"yes\" doctype-system=\"s.dtd\" cdata-section-elements=\"c\"/>"
+    "<xsl:template match=\"/\"><out><c>a&lt;b</c><xsl:copy-of select=\"//item[1]\"/>&#8364;</out></xsl:template>"
+    "</xsl:stylesheet>";
+
+const char* const XSL_XML_UNKNOWN_ENCODING =
+    XSL_HEAD ">" "<xsl:output method=\"xml\" encoding=\"no-such-encoding\"/>"
+    "<xsl:template match=\"/\"><out><xsl:value-of select=\"count(//item)\"/></out></xsl:template>"
+    "</xsl:stylesheet>";
+
 const char* const XSL_FAIL_TERMINATE =
     XSL_HEAD ">" XSL_OUT
     "<xsl:template match=\"/\"><out><xsl:for-each select=\"//item\"><e><xsl:attribute name=\"a\"><xsl:value-of select=\"@id\"/></xsl:attribute>"
@@ -519,6 +541,10 @@ void scTrDocument(Ctx& c)       { streamTransform(c, "transform", XSL_DOCUMENT, 
 void scTrMessage(Ctx& c)        { streamTransform(c, "transform", XSL_MESSAGE, DOC); }
 void scTrImport(Ctx& c)         { streamTransform(c, "transform", XSL_IMPORT, DOC); }
 void scTrHtml(Ctx& c)           { streamTransform(c, "transform", XSL_HTML, DOC); }
+void scTrHtmlDefault(Ctx& c)    { streamTransform(c, "transform", XSL_HTML_DEFAULT, DOC); }
+void scTrTextLatin1(Ctx& c)     { streamTransform(c, "transform", XSL_TEXT_LATIN1, DOC); }
+void scTrXmlUtf16(Ctx& c)       { streamTransform(c, "transform", XSL_XML_UTF16, DOC); }
+void scTrUnknownEncoding(Ctx& c){ streamTransform(c, "transform", XSL_XML_UNKNOWN_ENCODING, DOC); }
 void scTrSourceErr(Ctx& c)      { streamTransform(c, "transform", XSL_KEY, DOC_BAD); }
 void scFailTerminate(Ctx& c)    { streamTransform(c, "transform", XSL_FAIL_TERMINATE, DOC); }
 void scFailKey(Ctx& c)          { streamTransform(c, "transform", XSL_FAIL_KEY, DOC); }
@@ -590,6 +616,10 @@ const Scen kScens[] = {
     { "tr_message",         scTrMessage,        false, false },
     { "tr_import",          scTrImport,         false, false },
     { "tr_html",            scTrHtml,           false, false },
+    { "tr_html_default",    scTrHtmlDefault,    false, false },
+    { "tr_text_latin1",     scTrTextLatin1,     false, false },
+    { "tr_xml_utf16",       scTrXmlUtf16,       false, false },
+    { "tr_unknown_encoding", scTrUnknownEncoding, false, false },
     { "tr_source_err",      scTrSourceErr,      false, false },
     { "tr_xerces_dom",      scTrXercesDom,      false, false },
     { "fail_terminate",     scFailTerminate,    true,  true  },
